@@ -1,1 +1,2 @@
 SPECIFICATION Spec
+CONSTANT Kind = "call"
